@@ -30,6 +30,7 @@ func codecPool(a *aspec.ASpec) {
 		aspec.NamedSchema{Name: "PoolC", Schema: objSchema(aspec.Prop{Name: "flag", Schema: aspec.Schema{K: "bool"}}, aspec.Prop{Name: "when", Schema: aspec.Schema{K: "datetime"}})},
 		aspec.NamedSchema{Name: "VarDog", Schema: objSchema(aspec.Prop{Name: "kind", Schema: str, Req: true}, aspec.Prop{Name: "bark", Schema: str, Req: true})},
 		aspec.NamedSchema{Name: "VarCat", Schema: objSchema(aspec.Prop{Name: "kind", Schema: str, Req: true}, aspec.Prop{Name: "meow", Schema: i64, Req: true})},
+		aspec.NamedSchema{Name: "VarBird", Schema: objSchema(aspec.Prop{Name: "kind", Schema: str, Req: true}, aspec.Prop{Name: "wings", Schema: aspec.Schema{K: "bool"}, Req: true})},
 	)
 }
 
@@ -140,7 +141,8 @@ func sampleValue(s map[string]any, rng *rand.Rand, depth int) any {
 		v := sampleValue(of[k].(map[string]any), rng, depth+1)
 		if d, _ := s["disc"].(string); d != "" {
 			if m, ok := v.(map[string]any); ok {
-				m[d] = s["tags"].([]any)[k]
+				tg := s["tags"].([]any)[k].([]any)
+				m[d] = tg[rng.Intn(len(tg))]
 			}
 		}
 		return v
@@ -369,10 +371,22 @@ func checkCodec(c *core.Check, which string) {
 			tn := fmt.Sprintf("T%d", si)
 			rs := tlaSchema(a, schemas[si], 0)
 			typeSchema[id+"/"+tn] = rs
-			for k := 0; k < nSeeds && !hasDiscriminator(rs); k++ {
+			// a top-level discriminated oneOf over component variants: random values whose discriminator is one
+			// of the values the specification declares for the chosen variant (schema name or mapping alias)
+			var disc string
+			var tagsByType map[string][]string
+			if d, _ := rs["disc"].(string); d != "" && schemas[si].K == "oneOf" {
+				disc, tagsByType = d, map[string][]string{}
+				for vi, m := range schemas[si].Of {
+					for _, tg := range rs["tags"].([]any)[vi].([]any) {
+						tagsByType[driver.Norm(m.To)] = append(tagsByType[driver.Norm(m.To)], tg.(string))
+					}
+				}
+			}
+			for k := 0; k < nSeeds && (!hasDiscriminator(rs) || disc != ""); k++ {
 				caseN++
 				cid := fmt.Sprintf("e%d", caseN)
-				g.Codec = append(g.Codec, driver.CodecCase{ID: cid, Type: tn, Op: "roundtrip", Seed: c.Seed*1000 + int64(caseN)})
+				g.Codec = append(g.Codec, driver.CodecCase{ID: cid, Type: tn, Op: "roundtrip", Seed: c.Seed*1000 + int64(caseN), Disc: disc, Tags: tagsByType})
 				metas[cid] = meta{typ: id + "/" + tn, sch: rs}
 			}
 			for _, dc := range docsFor(rs, rng, nDocs) {
